@@ -159,16 +159,36 @@ public:
 	ndim(0),order(NULL),knots(NULL),nknots(NULL),extents(NULL),periods(NULL),
 	coefficients(NULL),naxes(NULL),strides(NULL),naux(0),aux(NULL),allocator(alloc)
 	{
-    assert(!tables.empty());
-    assert(tables.size()==coordinates.size());
-    int inputDim=tables.front()->get_ndim();
+    //The arguments are examined before anything is obtained; a table which
+    //cannot be stacked is reported by an exception, not by undefined behaviour
+    //(the padding below reads tables[1], and every table is read with the
+    //shape of the first one).
+    if(tables.size()<2)
+      throw std::runtime_error("At least two tables are needed for stacking");
+    if(tables.size()!=coordinates.size())
+      throw std::runtime_error("Number of tables to stack ("+std::to_string(tables.size())
+                               +") does not equal the number of coordinates ("+std::to_string(coordinates.size())+")");
+    if(stackOrder<0)
+      throw std::runtime_error("The order of the stacking dimension must not be negative");
     for(auto table : tables){
-      assert(table->get_ndim() == inputDim);
-      assert(table->get_ncoeffs() && tables.front()->get_ncoeffs());
+      if(!table)
+        throw std::runtime_error("Null table passed for stacking");
+    }
+    unsigned int inputDim=tables.front()->get_ndim();
+    if(inputDim==0)
+      throw std::runtime_error("Empty tables cannot be stacked");
+    for(auto table : tables){
+      if(table->get_ndim()!=inputDim)
+        throw std::runtime_error("Tables to stack must all have the same dimension");
       for(unsigned int i=0; i<inputDim; i++){
-        assert(table->get_order(i) && tables.front()->get_order(i));
+        if(table->get_order(i)!=tables.front()->get_order(i)
+           || table->get_nknots(i)!=tables.front()->get_nknots(i)
+           || table->get_ncoeffs(i)!=tables.front()->get_ncoeffs(i))
+          throw std::runtime_error("Tables to stack must all have the same shape (orders, knot and coefficient counts)");
       }
     }
+    if(!tables.front()->extents || !tables.back()->extents)
+      throw std::runtime_error("The first and the last table to stack must have extents");
 
     // add padding dimensions
     //The padding tables are owned here; if anything below throws (an
